@@ -235,6 +235,57 @@ func runC24(c *eng.Ctx) {
 	c.Check("R3", "reader-bound", read.Pos(), bound, fmt.Sprintf("the reader's kind bound is the largest kind constant (%d)", maxKind))
 	c.Floor("R3", 15)
 
+	// R5: a failed OpenStream sends a close only for a stream whose open message went out
+	// (the reader rejects messages for identifiers it never saw opened).
+	if open := c.MustFunc("R5", muxPkg, "Multiplexer.OpenStream"); open != nil {
+		var enc ssa.Instruction
+		for _, call := range eng.CallsNamed(open, "(*multiplexing.messageBuffer).encodeOpenMessage") {
+			enc = call
+		}
+		n := 0
+		for _, f := range eng.WithClosures(open) {
+			for _, call := range eng.Calls(f) {
+				switch eng.CalleeName(call) {
+				case "(*multiplexing.Stream).Close":
+					n++
+					c.Check("R5", "no-unconditional-close:"+eng.FuncName(f), call.Pos(), false, "OpenStream's cleanup must not send a close message unconditionally", "Stream.Close() always announces the close to the peer")
+				case "(*multiplexing.Stream).close":
+					n++
+					flag := call.Common().Args[1]
+					ok := false
+					why := eng.Render(flag)
+					if v, isC := eng.ConstBool(flag); isC {
+						ok = !v
+					} else if u, isU := flag.(*ssa.UnOp); isU {
+						// a captured local: every store of true lies after the open message was encoded
+						var cell ssa.Value = u.X
+						if fv, isFV := u.X.(*ssa.FreeVar); isFV {
+							cell = eng.FreeVarBinding(fv)
+						}
+						if al, isAl := cell.(*ssa.Alloc); isAl && enc != nil {
+							ok = true
+							for _, ref := range *al.Referrers() {
+								if st, isSt := ref.(*ssa.Store); isSt {
+									if v, isC := eng.ConstBool(st.Val); isC && v {
+										if !(enc.Block().Dominates(st.Block()) && (enc.Block() != st.Block() || eng.InstrIndex(enc) < eng.InstrIndex(st))) {
+											ok = false
+										}
+									} else if !isC {
+										ok = false
+									}
+								}
+							}
+						}
+					}
+					c.Check("R5", "close-announced-only-after-open:"+eng.FuncName(f), call.Pos(), ok, "the cleanup announces the close to the peer only if the open message was actually encoded", why)
+				}
+			}
+		}
+		if n == 0 {
+			c.Problem("R5", "OpenStream has no cleanup close")
+		}
+	}
+
 	// R4: close cancels pending messages.
 	cf, err := c.P.Field(muxPkg, "Multiplexer", "enqueueClose")
 	if err != nil {
